@@ -531,6 +531,70 @@ def replay_h_find_max_part(a, b, c, pa, pb, pc, swap):
     return False, "fresh"
 
 
+# directory prefixes a partitioned dataset puts before the part file name: the part number is the one in the file name
+DIRS = ["", "k=1/", "release=1.0.3/", "host=10.0.0.7/", "a=1.5/", "part.7.d/k=2/", "year=2020/month=1.5/"]
+PATHS2 = [[d + "part.%d.parquet" % i for i in range(0, 130)] for d in DIRS]
+
+
+def h_find_max_part_dirs(a: int, b: int, pa: bool, pb: bool, da: int, same: bool) -> bool:
+    """
+    pre: 9 <= a <= 10 and 99 <= b <= 100 and 0 <= da < 7
+    post: __return__
+    """
+    # part files inside partition directories whose names contain dots or digits: the id is still the file's number
+    from crosshair import realize
+    da = realize(da)
+    db = da if same else (da + 1) % 7
+    ids = [(i, d) for i, p, d in ((a, pa, da), (b, pb, db)) if p]
+    rgs = [_rg(1, 1, PATHS2[d][i]) for i, d in ids]
+    nxt = writer.find_max_part(rgs)
+    return all(nxt > i for i, _ in ids) and (nxt == 0 or nxt - 1 in [i for i, _ in ids])
+
+
+def replay_h_find_max_part_dirs(a, b, pa, pb, da, same):
+    """a real hive dataset partitioned on a text key whose value is the witness's directory text, appended to until
+    the witness ids exist; no append may open an existing data file"""
+    import fastparquet.writer as w
+    db = da if same else (da + 1) % 7
+    ids = [(i, d) for i, p, d in ((a, pa, da), (b, pb, db)) if p]
+    rgs = [_rg(1, 1, DIRS[d] + "part.%d.parquet" % i) for i, d in ids]
+    nxt = w.find_max_part(rgs)
+    if all(nxt > i for i, _ in ids):
+        return False, "fresh"
+    # show it through the public API: a dataset partitioned on such a value loses a file on the second append
+    import hashlib, shutil, tempfile
+    import pandas as pd
+    import fastparquet
+    bad = [DIRS[d] for i, d in ids if not nxt > i]
+    val = bad[0].rstrip("/").split("=")[-1] if "=" in bad[0] else None
+    if val is None:
+        return True, "find_max_part over %r gives %d: an existing part file would be overwritten by the next " \
+                     "append" % ([r.columns[0].file_path for r in rgs], nxt)
+    d = tempfile.mkdtemp(prefix="c19-")
+    try:
+        dn = os.path.join(d, "ds")
+        fastparquet.write(dn, pd.DataFrame({"k": [val] * 2, "v": [1, 2]}), file_scheme="hive", partition_on=["k"])
+        seen = {}
+        for step in range(3):
+            for root, _, files in os.walk(dn):
+                for f in files:
+                    if f.startswith("part."):
+                        fp = os.path.join(root, f)
+                        h = hashlib.sha1(open(fp, "rb").read()).hexdigest()
+                        if fp in seen and seen[fp] != h:
+                            return True, "append %d to a dataset partitioned on k=%r rewrote the existing data file " \
+                                         "%s" % (step, val, os.path.relpath(fp, dn))
+                        seen[fp] = h
+            fastparquet.write(dn, pd.DataFrame({"k": [val] * 2, "v": [10 * step, 10 * step + 1]}),
+                              file_scheme="hive", partition_on=["k"], append=True)
+        rows = len(fastparquet.ParquetFile(dn).to_pandas())
+        if rows != 8:
+            return True, "after three appends the dataset partitioned on k=%r holds %d rows, expected 8" % (val, rows)
+        return True, "find_max_part over %r gives %d" % ([r.columns[0].file_path for r in rgs], nxt)
+    finally:
+        shutil.rmtree(d, ignore_errors=True)
+
+
 def h_multi_append_fault(n_old: int, r0: int, b0: int, r1: int, b1: int, nfr: int, fail_k: int) -> bool:
     """
     pre: 0 <= n_old <= 2 and 1 <= r0 < LIM and 1 <= r1 < LIM and 0 <= b0 < LIM and 0 <= b1 < LIM and 1 <= nfr <= 2
